@@ -240,11 +240,27 @@ class StmtMixin:
         if isinstance(it, PList) and not it.sym_elem_of and all(not isinstance(i, Splice) for i in it.items) and all(len(i.items) == 1 for i in it.items if isinstance(i, Rep)):
             # mixed list: concrete items one by one, repeated parts symbolically
             broke = False
+            first = None
             for item in list(it.items):
                 if isinstance(item, Rep):
-                    if self.symbolic_iteration(st, item.items[0], item.over, fr):
-                        broke = True
-                        break
+                    # one loop over a + b + c: "the element" is one generic element on a path, so the
+                    # body's questions about it get one answer for all segments (2 paths, not 2**k)
+                    e = item.items[0]
+                    alias = None
+                    shape = (type(e).__name__, getattr(e, "kinds", None) or getattr(e, "kind", None))
+                    if isinstance(e, (UNode, TNode)) and isinstance(item.over, str):
+                        if first is None:
+                            first = (shape, item.over)
+                        elif first[0] == shape and first[1] != item.over:
+                            alias = (item.over + "[", first[1] + "[")
+                            self.key_alias.append(alias)
+                    try:
+                        if self.symbolic_iteration(st, e, item.over, fr):
+                            broke = True
+                            break
+                    finally:
+                        if alias:
+                            self.key_alias.remove(alias)
                     continue
                 self.assign(st.target, item, fr)
                 try:
@@ -302,9 +318,12 @@ class StmtMixin:
             e, d = self.sym_elem(it.args[0], site)
             idx = Sym({f"index({d})": 1})
             return PTuple([idx, e]), d
-        if isinstance(it, StrOp) and it.op == "reversed":
+        if isinstance(it, StrOp) and it.op in ("reversed", "sorted"):
             e, d = self.sym_elem(it.args[0], site)
-            return e, f"reversed({d})"
+            return e, f"{it.op}({d})"
+        if isinstance(it, PSet) and len(it.items) == 1 and isinstance(it.items[0], Rep) and len(it.items[0].items) == 1:
+            # a set built from a user list: duplicates collapse, order is arbitrary
+            return it.items[0].items[0], f"set({it.items[0].over})"
         if isinstance(it, StrOp) and it.op == "zip":
             parts = [self.sym_elem(a, site) for a in it.args]
             return PTuple([p[0] for p in parts]), "zip(" + ",".join(p[1] for p in parts) + ")"
